@@ -298,8 +298,8 @@ def shard(ctx):
     def body(case):
         (iso3, options), perts = case
         run_case(ctx, iso3, options, perts, "c02_%d_%d" % (ctx.shard, ctx.evaluations))
-    drive(ctx, st.tuples(case_strategy(), st.lists(perturbation, min_size=2, max_size=2)), body, 100 if thorough else 5, shrink=False, tag="runs", count=False)
-    model.run_fixed(ctx, model.extreme_cases(), lambda iso, o, k: run_case(ctx, iso, o, [], "c02x_%s" % iso))
+    drive(ctx, st.tuples(case_strategy(), st.lists(perturbation, min_size=2, max_size=2)), body, 100 if thorough else 12, shrink=False, tag="runs", count=False)
+    model.run_fixed(ctx, model.extreme_cases_wide(), lambda iso, o, k: run_case(ctx, iso, o, [], "c02x_%s" % iso))
     if thorough:
         isos = model.iso3_list()
         for i, iso in enumerate(isos):
